@@ -404,6 +404,11 @@ def tagged_layout_mutations(ty, v, rng):
     d = dict(v)
     out = []
     bad = rng.choice(BAD_TAGS)
+    # the text of a declared non-string tag ('2' for the tag 2) is not that tag
+    texts = [str(m.x['spec'].tagval) for m in ty.a if not isinstance(m.x['spec'].tagval, (str, bytes))
+             and not any(str(m.x['spec'].tagval) == o.x['spec'].tagval for o in ty.a)]
+    if texts and rng.random() < 0.5:
+        bad = rng.choice(texts)
     if ext is False:
         body = {k: x for k, x in d.items() if k != tagname}
         out.append(body)                                        # tag absent
